@@ -314,6 +314,17 @@ func init() {
 			ex.stub("clock: exact virtual clock (advances by each sleep's duration and by 1 ms per reading)")
 			return nil
 		},
+		z + "SleepYield": func(ex *Exec, fn *ssa.Function, args []Value, site token.Pos) Value {
+			if ex.cur != nil {
+				ex.unsupported("SleepYield inside a coroutine")
+			}
+			for _, c := range append([]*coro{}, ex.coros...) {
+				if c.state == coNew || c.state == coRunnable {
+					ex.runCoro(c)
+				}
+			}
+			return nil
+		},
 		z + "ClockIsExact": func(ex *Exec, fn *ssa.Function, args []Value, site token.Pos) Value { return ex.tc.Bool(ex.clockExact) },
 		z + "ClockNow": func(ex *Exec, fn *ssa.Function, args []Value, site token.Pos) Value {
 			if ex.clockExact {
